@@ -1,6 +1,6 @@
 -------------------------------- MODULE JCFG --------------------------------
 (* Judge clauses for the grammar properties C07 C08 (and the CFG part of C15)  *)
-EXTENDS Util, CFG
+EXTENDS Util, CFG, ChomskySteps
 
 BadG(name, cond) == IF cond THEN {name} ELSE {}
 
@@ -56,6 +56,14 @@ JChomskyPhase(e) ==
                     /\ IF e.phase = 4 THEN new <= exp /\ (new = 0 <=> exp = 0) ELSE new = exp))
      \cup BadG("same_terminals", G.S # G0.S)
      \cup BadG("input_unchanged", e.post # e.pre)
+     (* binding: the deterministic phases give exactly the model's grammar - variables, start and the rule LIST *)
+     \cup (IF e.phase \in {1, 2, 5} \/ (e.phase = 4 /\ "share" \in DOMAIN e)
+           THEN LET M == CASE e.phase = 1 -> AddStart(G0, "S")
+                           [] e.phase = 2 -> RemoveEps(G0)
+                           [] e.phase = 4 -> LengthTwo(G0, e.share)
+                           [] e.phase = 5 -> ElimTerminals(G0)
+                IN BadG("binding_phase_is_model_phase", M.V # G.V \/ M.R # G.R \/ M.start # G.start)
+           ELSE {})
 
 JToChomsky(e) ==
   IF e.exc # "none" THEN {"raised_" \o e.exc} \cup BadG("input_unchanged", e.post # e.pre)
